@@ -258,6 +258,10 @@ pub fn run(ctx: &Ctx) -> i32 {
     let ndot = ["a", "a.b", ".a", "a.", "...", "a.b.c"];
     let t = sweep(ctx, &ndot, 3, &c);
     bounds.push(format!("<=3 components over {{a,a.b,.a,a.,...,a.b.c}} (names containing dots): {} ordered pairs", t));
+    // names that differ only in case, or only by an accent or a width variant: components are compared exactly
+    let ncase = ["a", "A", "ä", "Ａ", "b"];
+    let t = sweep(ctx, &ncase, 3, &c);
+    bounds.push(format!("<=3 components over {{a,A,ä,Ａ,b}} (names equal up to case / accent / width): {} ordered pairs", t));
     // long paths: the number of '..' and of kept components grows with the depth; every depth up to 64 on
     // either side, against the root, a sibling chain and a chain sharing a prefix of every length
     {
